@@ -1221,3 +1221,138 @@ func TestVerif_C15_AcceptErrors(t *testing.T) {
 		}
 	})
 }
+
+// TestVerif_C15_HostileBesideWellBehaved: "for all mixes of well-behaved and hostile clients" at the level where it
+// matters — an agent whose passive TCP candidate sits on the mux. A well-behaved peer is connected and gets its
+// checks answered; a second client attaches under the same ufrag (it travels in the clear), misbehaves in a drawn way
+// (oversized length header, garbage, reset) and the well-behaved peer's next authenticated check must still be
+// answered: the bad stream is closed, the others are served.
+func TestVerif_C15_HostileBesideWellBehaved(t *testing.T) {
+	st := vfNewStats(t)
+	lf := logging.NewDefaultLoggerFactory()
+	lf.DefaultLogLevel = logging.LogLevelDisabled
+	rapid.Check(t, func(rt *rapid.T) {
+		hostile := rapid.SampledFrom([]string{"oversize-header", "garbage-frame", "reset", "truncated-frame-then-close"}).Draw(rt, "hostile")
+		readBuf := rapid.SampledFrom([]int{0, 8, 64}).Draw(rt, "readBuffer")
+		ln := newC15Listener()
+		mux := NewTCPMuxDefault(TCPMuxParams{Listener: ln, Logger: lf.NewLogger("mux"), ReadBufferSize: readBuf, FirstStunBindTimeout: time.Hour})
+		fn := newFakeNet([]fnIface{{Name: "eth0", Up: true, Addrs: []string{"10.0.0.1"}}})
+		a, err := NewAgentWithOptions(WithNet(fn), WithLoggerFactory(lf), WithMulticastDNSMode(MulticastDNSModeDisabled),
+			WithCandidateTypes([]CandidateType{CandidateTypeHost}), WithNetworkTypes([]NetworkType{NetworkTypeTCP4}), WithTCPMux(mux),
+			WithCheckInterval(time.Hour), WithKeepaliveInterval(time.Hour), WithDisconnectedTimeout(time.Hour), WithFailedTimeout(time.Hour), WithDisableActiveTCP())
+		if err != nil {
+			rt.Fatalf("harness: %v", err)
+		}
+		var clients []*c15Client
+		defer func() {
+			for _, c := range clients {
+				_ = c.conn.Close()
+			}
+			done := make(chan struct{})
+			go func() { _ = a.Close(); _ = mux.Close(); close(done) }()
+			select {
+			case <-done:
+			case <-time.After(10 * time.Second):
+			}
+		}()
+		gathered := make(chan struct{}, 1)
+		_ = a.OnCandidate(func(c Candidate) {
+			if c == nil {
+				select {
+				case gathered <- struct{}{}:
+				default:
+				}
+			}
+		})
+		if err := a.GatherCandidates(); err != nil {
+			rt.Fatalf("harness: %v", err)
+		}
+		select {
+		case <-gathered:
+		case <-time.After(20 * time.Second):
+			st.Inconclusive()
+			rt.Fatalf("VERIF-INCONCLUSIVE: gathering did not complete")
+		}
+		if lc, _ := a.GetLocalCandidates(); len(lc) == 0 {
+			rt.Fatalf("harness: no passive TCP candidate gathered")
+		}
+		ufrag, pwd, _ := a.GetLocalUserCredentials()
+		const peerUfrag, peerPwd = "peerUfragPeerUfrag", "peerPasswordPeerPasswordPeerPwd"
+		if err := a.startConnectivityChecks(false, peerUfrag, peerPwd); err != nil {
+			rt.Fatalf("harness: %v", err)
+		}
+		localIP := net.IPv4(10, 0, 0, 1)
+		connect := func(port int) *c15Client {
+			ca, cb := net.Pipe()
+			remote := &net.TCPAddr{IP: net.IPv4(198, 51, 100, 9), Port: port}
+			cl := &c15Client{id: len(clients), conn: ca, remote: remote, kind: "valid", ufrag: ufrag, done: make(chan struct{})}
+			go cl.reader()
+			clients = append(clients, cl)
+			ln.ch <- &c15Conn{Conn: cb, local: &net.TCPAddr{IP: localIP, Port: 8443}, remote: remote}
+
+			return cl
+		}
+		check := func(cl *c15Client) [stun.TransactionIDSize]byte {
+			req := simBuildRequest(simReqOpts{username: ufrag + ":" + peerUfrag, key: pwd, role: "controlling", tiebreaker: 7, priority: 1000, fingerprint: true})
+			_ = cl.conn.SetWriteDeadline(time.Now().Add(20 * time.Second))
+			_, _ = cl.conn.Write(c15Frame(req.Raw))
+
+			return req.TransactionID
+		}
+		answered := func(cl *c15Client, txid [stun.TransactionIDSize]byte, wait time.Duration) bool {
+			for d := time.Now().Add(wait); time.Now().Before(d); {
+				rx := cl.received()
+				for off := 0; off+2 <= len(rx); {
+					n := int(binary.BigEndian.Uint16(rx[off:]))
+					if off+2+n > len(rx) {
+						break
+					}
+					m := &stun.Message{Raw: append([]byte{}, rx[off+2:off+2+n]...)}
+					if m.Decode() == nil && m.TransactionID == txid && m.Type.Class == stun.ClassSuccessResponse {
+						return true
+					}
+					off += 2 + n
+				}
+				time.Sleep(200 * time.Microsecond)
+			}
+
+			return false
+		}
+		good := connect(40001)
+		if !answered(good, check(good), 20*time.Second) {
+			st.Inconclusive()
+			rt.Fatalf("VERIF-INCONCLUSIVE: the well-behaved peer's first check was not answered within 20 s")
+		}
+		bad := connect(40002)
+		if !answered(bad, check(bad), 20*time.Second) { // attached like anybody who has seen the ufrag
+			st.Inconclusive()
+			rt.Fatalf("VERIF-INCONCLUSIVE: the second client's first check was not answered within 20 s")
+		}
+		_ = bad.conn.SetWriteDeadline(time.Now().Add(2 * time.Second))
+		switch hostile {
+		case "oversize-header":
+			_, _ = bad.conn.Write([]byte{0xff, 0xff, 1, 2, 3})
+		case "garbage-frame":
+			_, _ = bad.conn.Write(c15Frame([]byte("GET / HTTP/1.1\r\n\r\n")))
+			_, _ = bad.conn.Write([]byte{0xff, 0xff})
+		case "reset":
+			_ = bad.conn.Close()
+		case "truncated-frame-then-close":
+			_, _ = bad.conn.Write([]byte{0x00, 0x40, 1, 2, 3})
+			_ = bad.conn.Close()
+		}
+		time.Sleep(2 * time.Millisecond)
+		desc := fmt.Sprintf("hostile=%s readBuffer=%d", hostile, readBuf)
+		st.Record(vfHashStr(desc), true, "hostile:"+hostile)
+		if st.WantSample() {
+			st.Sample(func() string { return desc })
+		}
+		if !answered(good, check(good), 3*time.Second) {
+			if stuck, dump := vfStuck("pion/ice/v4"); stuck {
+				st.Fail(rt, "C15/deliver/well-behaved-client-starved-by-a-hostile-one", "after a second client of the same ufrag misbehaved (%s) the well-behaved peer's authenticated check is no longer answered: its packets are delivered to nobody\n%s", desc, dump)
+			}
+			st.Inconclusive()
+			rt.Fatalf("VERIF-INCONCLUSIVE: check not answered within 3 s but not stably blocked")
+		}
+	})
+}
